@@ -605,9 +605,25 @@ fn do_op(h: &mut Hasher, m: &M, data: &[u8], op: &J, scratch: &str, sid: &str) -
             let f3 = *cl.finalize().as_bytes();
             let f4 = *h.finalize().as_bytes();
             let c1 = h.count();
+            // clone_from into a hasher of another mode and history must give an equal, independent copy
+            let mut other = blake3::Hasher::new_keyed(&[0x5a; 32]);
+            other.update(&[7u8; 1500]);
+            other.clone_from(&h);
+            let f5 = *other.finalize().as_bytes();
+            let (mut a, mut b) = (h.clone(), other.clone());
+            a.update(&[9u8; 2100]);
+            b.update(&[9u8; 2100]);
+            let same_after = a.finalize() == b.finalize();
+            let (mut r1, mut r2) = (h.clone(), other);
+            r1.reset();
+            r1.update(b"xyz");
+            r2.reset();
+            r2.update(b"xyz");
+            let same_reset = r1.finalize() == r2.finalize();
             o.hx("hex", &f1);
             o.hx("xof_hex", &x);
-            o.b("stable", f1 == f2 && f1 == f3 && f1 == f4 && x[..32] == f1[..] && c0 == c1 && cl.count() == c0);
+            o.b("stable", f1 == f2 && f1 == f3 && f1 == f4 && x[..32] == f1[..] && c0 == c1 && cl.count() == c0
+                && f5 == f1 && same_after && same_reset && h.count() == c0);
             o.n("count", c1);
         }
         "debug_fmt" => {
